@@ -104,6 +104,10 @@ thread_local! {
 }
 
 thread_local! {
+    /// maximum source block length of the FDT instance `fdt_packets` cuts (default 64 symbols)
+    pub static FDT_B: std::cell::Cell<u32> = const { std::cell::Cell::new(64) };
+}
+thread_local! {
     /// FLUTE version announced by EXT_FDT in the packets `fdt_packets` writes (2 = RFC 6726, 1 = RFC 3926)
     pub static FDT_VERSION: std::cell::Cell<u8> = const { std::cell::Cell::new(2) };
 }
@@ -111,7 +115,7 @@ thread_local! {
 pub fn fdt_packets(tsi: u64, id: u32, xml: &[u8], e: usize, sct: Option<(u32, u32)>, cenc: Option<u8>) -> Vec<Vec<u8>> {
     let e = e.max(1);
     let nsym = xml.len().div_ceil(e).max(1);
-    let b: u32 = 64;
+    let b: u32 = FDT_B.with(|c| c.get());
     let p = rfc::partition(b as u128, xml.len() as u128, e as u128).unwrap();
     let mut out = Vec::new();
     for j in 0..nsym {
